@@ -407,6 +407,43 @@ int __wrap_access(const char *path, int mode)
     return 0;
 }
 
+/* ---- name-space operations: a change of kalign that writes to a temporary name and renames it, or removes a
+   half-written output, meets the simulated files and not the real disk */
+int __real_unlink(const char *path);
+int __wrap_unlink(const char *path)
+{
+    if (!g_in_call) return __real_unlink(path);
+    SFile *f = sf_find(path);
+    int err = 0;
+    if (!f || f->kind == '?') { errno = ENOENT; return -1; }
+    if (f->kind == 'd' || f->kind == 'D') { errno = EISDIR; return -1; }
+    if (!parent_ok(path, &err)) { errno = err; return -1; }
+    f->kind = '?'; f->n = 0; f->written = 0;
+    return 0;
+}
+int __real_remove(const char *path);
+int __wrap_remove(const char *path) { if (!g_in_call) return __real_remove(path); return __wrap_unlink(path); }
+int __real_rename(const char *from, const char *to);
+int __wrap_rename(const char *from, const char *to)
+{
+    if (!g_in_call) return __real_rename(from, to);
+    SFile *f = sf_find(from);
+    int err = 0;
+    if (!f || f->kind == '?') { errno = ENOENT; return -1; }
+    if (f->kind == 'd' || f->kind == 'D') { errno = EINVAL; return -1; }      /* directories are not moved in this model */
+    SFile *t = sf_find(to);
+    if (t && (t->kind == 'd' || t->kind == 'D')) { errno = EISDIR; return -1; }
+    if (t && t->openw_err) { errno = t->openw_err; g_probe[PR_FS_OPEN_FAULTS]++; return -1; }
+    if (!parent_ok(to, &err)) { errno = err; return -1; }
+    if (!t) t = sf_new(to, 'f');
+    sim_xfree(t->data);
+    t->data = f->data; t->n = f->n; t->cap = f->cap; t->kind = f->kind == 'p' ? 'f' : f->kind; t->written = 1;
+    f->data = NULL; f->n = 0; f->cap = 0; f->kind = '?'; f->written = 0;
+    return 0;
+}
+int __real_lstat(const char *path, struct stat *st);
+int __wrap_lstat(const char *path, struct stat *st) { if (!g_in_call) return __real_lstat(path, st); return __wrap_stat(path, st); }
+
 /* ------------------------------------------------------------------ std stream swapping */
 
 void simfs_begin_call(void)
